@@ -98,6 +98,8 @@ class Execution:
         self.deadlock = False
         self.locks = list(locks)
         self.stopped = False
+        self.line_targets = None  # {worker id: index of the line event that becomes a scheduling point}
+        self.line_root = None
 
     # ---- worker side
     def in_worker(self):
@@ -128,12 +130,37 @@ class Execution:
         if self.in_worker():
             self.tid2w[threading.get_ident()].obs.append((path, hash(content)))
 
+    def _tracer(self, w):
+        """line-granularity mode: the k-th 'line' event of this worker inside the library becomes a scheduling point"""
+        import sys
+
+        root = self.line_root
+        target = self.line_targets.get(w.wid)
+        w.nlines = 0
+
+        def local(frame, event, arg):
+            if event == "line":
+                w.nlines += 1
+                if w.nlines == target:
+                    w.line_at = f"{frame.f_code.co_filename.rsplit('/', 1)[-1]}:{frame.f_lineno}"
+                    self.point("line", w.line_at)
+            return local
+
+        def glob(frame, event, arg):
+            if event == "call" and frame.f_code.co_filename.startswith(root):
+                return local
+            return None
+
+        sys.settrace(glob)
+
     def _main(self, w):
         self.tid2w[threading.get_ident()] = w
         w.go.acquire()
         try:
             if vfs.fs.crashed:
                 raise vfs.Crash()
+            if self.line_targets is not None:
+                self._tracer(w)
             w.result = w.body()
         except vfs.Crash:
             pass
@@ -164,7 +191,7 @@ class Execution:
         ws = tuple((w.wid, w.done, w.npoints, w.pending[0] if w.pending else None, tuple(w.obs), repr(type(w.exc).__name__) if w.exc else None) for w in self.workers)
         return (files, locks, ws)
 
-    def run(self, schedule, stop=False, max_steps=10000):
+    def run(self, schedule, stop=False, max_steps=10000, policy=None):
         """returns self. `schedule`: worker ids for the first decisions (a non-enabled id is a hard error)."""
         global CURRENT
         CURRENT = self
@@ -191,6 +218,8 @@ class Execution:
                     self.stopped = True
                     self.final_enabled, self.final_key = sorted(en), self.state_key()
                     break
+                elif policy is not None:
+                    c = policy(self, en)
                 else:
                     c = en[0]
                 if self.last is not None and c != self.last and self.last in en:
@@ -200,7 +229,8 @@ class Execution:
                 self.last = c
                 w = self.workers[c]
                 w.go.release()
-                self.back.acquire()  # until it reaches its next point or finishes
+                if not self.back.acquire(timeout=120):  # until it reaches its next point or finishes
+                    raise RuntimeError(f"worker {c} neither reached a scheduling point nor finished within 120 s (blocked on something the scheduler does not own)")
                 step += 1
                 if step > max_steps:
                     raise RuntimeError("scheduler horizon exceeded")
